@@ -176,3 +176,12 @@ Lemma isCutOff_cases : forall eType eDepth score alpha beta depth,
 Proof.
   intros. unfold isCutOff in H. lia.
 Qed.
+
+(** non-vacuity of [score_ply_algebra] / [mate_of_score_of_mate]: a mate-in-5-plies score found at
+    ply 5, stored, and read back at ply 3 *)
+Example score_ply_algebra_example :
+  ttSetScore 31989 5 = 31994 /\ ttGetScore 31994 3 = 31991 /\
+  ttSetScore (-31990) 5 = 33541 /\ ttGetScore 33541 3 = -31992 /\
+  ttGetScore (ttSetScore 123 5) 3 = 123 /\
+  mate_of_score (score_of_mate 3) = Some 3 /\ score_of_mate 3 = 31994 /\ score_of_mate (-2) = -31995.
+Proof. vm_compute. repeat split. Qed.
